@@ -91,7 +91,10 @@ def convert_output_data(obj, limit_func, engine, rec=None):
             result[rec(key, limit_func, engine, rec)] = rec(
                 value, limit_func, engine, rec)
         return result
-    elif isinstance(obj, SetType):
+    elif isinstance(obj, SetType) and not isinstance(
+            obj, collections.abc.MappingView):
+        # (dict key and item views are Sets too, but they are documented
+        # to finalise to lists like any other iterator)
         set_type = list if convert_sets_to_lists(engine) else set
         return set_type(rec(t, limit_func, engine, rec)
                         for t in limit_func(obj))
